@@ -57,9 +57,20 @@ func Cur() int {
 	return cur.id
 }
 
+var atomicDepth int
+
+// Atomic runs f without scheduling points: every shim call inside it is a
+// plain call (used by the wrappers that turn a whole queue / adder operation
+// into one access).
+func Atomic(f func()) {
+	atomicDepth++
+	defer func() { atomicDepth-- }()
+	f()
+}
+
 // Log records one sync access of the running thread.
 func Log() {
-	if active {
+	if active && atomicDepth == 0 {
 		Acc = append(Acc, cur.id)
 	}
 }
@@ -67,7 +78,7 @@ func Log() {
 // Step is a scheduling point followed by a logged access: called by the
 // vatomic shims and by the harness at every operation invocation.
 func Step() {
-	if !active {
+	if !active || atomicDepth > 0 {
 		return
 	}
 	Yield()
@@ -76,7 +87,7 @@ func Step() {
 
 // Plain is an unlogged scheduling point (statement-level instrumentation).
 func Plain() {
-	if active && Fine {
+	if active && Fine && atomicDepth == 0 {
 		Yield()
 	}
 }
@@ -171,7 +182,7 @@ func switchTo(me, next *thread) {
 
 // Yield is called by the shims immediately before every shared access.
 func Yield() {
-	if !active {
+	if !active || atomicDepth > 0 {
 		return
 	}
 	me := cur
